@@ -68,7 +68,9 @@ theorem jit_exit_sim (env : Env) (haddr : Nat → Option Nat) (um ud : Bool) (c 
     ∃ σ', stepsN c 1 σ = some σ' ∧ σ'.rip = retAddr ∧ σ'.get 0 = r0 ∧ MemRel σ'.mem s'.mem ∧
       (σ'.get X86.RSP).toNat = s'.mem.stack.base ∧ topBytes σ' s' = some top := by
   have _ := hcov   -- not needed: no instruction but `exit` makes `jitExec` return `.done` (`whole_jitExec_done`)
-  exact whole_exit_sim env haddr um ud c L retAddr top σ s s' r0 hv hret hretlt ((whole_rel_iff ..).mp hrel) hstep
+  obtain ⟨σ', h1, h2, h3, h4, h5, h6, -⟩ :=
+    whole_exit_sim env haddr um ud c L retAddr top σ s s' r0 hv hret hretlt ((whole_rel_iff ..).mp hrel) hstep
+  exact ⟨σ', h1, h2, h3, h4, h5, h6⟩
 
 /-- runs: if the register-transfer semantics return `r0`, the machine reaches the landing pad with rax = r0, the
     eBPF-visible memory as the semantics left it, rsp at the bottom of the eBPF stack and the saved bytes intact -/
